@@ -680,6 +680,12 @@ pub fn zz_dbg<X>(_x: &X, f: &mut fmt::Formatter<'_>) -> fmt::Result {
     f.write_str("zz")
 }
 
+/// custom Debug method for possibly unsized values: prints the size of the value and the type it was instantiated with
+/// (a `&&T` handed over instead of a `&T` shows in both)
+pub fn zz_szv<X: ?Sized>(x: &X, f: &mut fmt::Formatter<'_>) -> fmt::Result {
+    write!(f, "<{}:{}>", ::std::mem::size_of_val(x), ::std::any::type_name::<X>())
+}
+
 pub fn fmt_alt<X: Payload>(x: &X, f: &mut fmt::Formatter<'_>) -> fmt::Result {
     ev(format!("m_fmt_alt:{}", pid(x)));
     // the size of the type the method was instantiated with shows whether it got the field or a reference to it
